@@ -36,6 +36,7 @@ type World struct {
 
 // New builds a world over st. trusted sets LinkSystem.TrustedStorage.
 func New(st *store.Store, trusted bool) *World {
+	neighbour()
 	w := &World{Store: st}
 	ls := cidlink.DefaultLinkSystem()
 	ls.StorageReadOpener = st.ReadOpener
@@ -44,6 +45,20 @@ func New(st *store.Store, trusted bool) *World {
 	unixfsnode.AddUnixFSReificationToLinkSystem(&ls)
 	w.LS = ls
 	return w
+}
+
+// neighbour: another component of the same process sets up a link system of
+// its own, installs the UnixFS reifiers on it and then customises ITS OWN
+// table (it wants the lazy view under both names). A link system is a value
+// with its own KnownReifiers map; what one owner does to its map is nobody
+// else's business, so this must leave every other link system untouched.
+func neighbour() {
+	n := cidlink.DefaultLinkSystem()
+	unixfsnode.AddUnixFSReificationToLinkSystem(&n)
+	if n.KnownReifiers != nil {
+		n.KnownReifiers["unixfs-preload"] = unixfsnode.Reify
+		delete(n.KnownReifiers, "unixfs")
+	}
 }
 
 // ProtoFor picks the prototype a traversal would use for a link.
